@@ -19,3 +19,14 @@ Theorem C10_node_iter :
     map (fun n => (nkey digest V n, nval digest V n)) ns = final_map V ops.
 Proof. exact Top.C10_node_iter. Qed.
 Print Assumptions C10_node_iter.
+
+(* one upsert, pointwise: the key gets the new value digest, every other key keeps its stored digest *)
+Theorem C10_upsert_pointwise :
+  forall (digest V : Type) (H : list (tok digest V) -> digest) (lvl_of : N -> N),
+  (forall k : N, lvl_of k < 255) ->
+  forall (ops : list (op V)) (t : mst digest V) (k : N) (v : V), run digest V H lvl_of ops = Ok t ->
+  exists t', mst_upsert digest V true t k (lvl_of k) v = Ok t' /\
+    forall k', mlookup V k' (content digest V (root digest V t')) =
+               if k' =? k then Some v else mlookup V k' (content digest V (root digest V t)).
+Proof. exact Top.C10_upsert_pointwise. Qed.
+Print Assumptions C10_upsert_pointwise.
